@@ -211,7 +211,7 @@ def run_family(ctx, fam, inputs=None):
     inputs = list(fam.inputs(ctx)) if inputs is None else list(inputs)
     if fam.procs and len(inputs) > 200:
         import multiprocessing as mp
-        with mp.get_context('fork').Pool(fam.procs) as pool:
+        with mp.get_context('spawn').Pool(fam.procs) as pool:
             records = pool.map(_exec_wrapper, [(fam, i) for i in inputs], chunksize=max(1, len(inputs) // (fam.procs * 8)))
     else:
         records = [_exec_wrapper((fam, i)) for i in inputs]
